@@ -425,3 +425,89 @@ pub fn replay_chialisp(args: &HashMap<String, String>) {
     rep.traces = rep.evaluations;
     rep.write(outp);
 }
+
+// ---------------------------------------------------------------- CseGuards.tla vectors (C02)
+fn cse_tree_to_expr(t: &Value) -> crate::ast::Expr {
+    use crate::ast::Expr;
+    let v = |n: &str| Expr::Var(n.to_string());
+    match t[0].as_str().unwrap() {
+        // the repeated subexpression: fails when X is an atom, a 32-byte hash otherwise
+        "E" => Expr::Prim(11, vec![Expr::Prim(5, vec![Expr::Prim(5, vec![v("X")])]), Expr::Lit(V::int(1))]),
+        "K" => Expr::Lit(V::int(100 + t[1].as_i64().unwrap())),
+        "g" => v(&format!("G{}", t[1].as_i64().unwrap())),
+        "if" => Expr::If(Box::new(cse_tree_to_expr(&t[1])), Box::new(cse_tree_to_expr(&t[2])), Box::new(cse_tree_to_expr(&t[3]))),
+        other => panic!("unknown tree node {other}"),
+    }
+}
+
+/// spec -> impl: every tree of CseGuards.tla with two or more instances of the repeated subexpression becomes the body
+/// of a function; each build is run on the eight (guard, guard, failing?) rows and must return what the model's source
+/// meaning returns whenever that is a value
+pub fn replay_cse(args: &HashMap<String, String>) {
+    use crate::ast::{Expr, Helper, Pat};
+    let input = args.get("in").expect("--in");
+    let outp = args.get("out").expect("--out");
+    let builds: Vec<String> = args.get("builds").expect("--builds").split(',').map(|s| s.to_string()).collect();
+    let take: usize = args.get("take").map(|s| s.parse().unwrap()).unwrap_or(usize::MAX);
+    let mut vectors = crate::util::read_tlc_vectors(input, "V");
+    if vectors.len() > take {
+        let step = vectors.len() / take;
+        vectors = vectors.into_iter().step_by(step.max(1)).take(take).collect();
+    }
+    let pat = Pat::list(vec![Pat::Var("G1".into()), Pat::Var("G2".into()), Pat::Var("X".into())], Pat::Nil);
+    let good_x = V::list(&[V::cons(V::int(7), V::int(8))]);
+    let bad_x = V::int(5);
+    let e_val = match crate::val::consensus_run(&V::list(&[V::A(vec![11]), V::list(&[V::A(vec![5]), V::list(&[V::A(vec![5]), V::A(vec![2])])]), V::cons(V::A(vec![1]), V::int(1))]), &V::list(&[good_x.clone()]), crate::val::CONS_MAX_COST) {
+        crate::val::Outcome::Ok(v) => v,
+        o => panic!("cannot evaluate the repeated subexpression: {:?}", o.to_json()),
+    };
+    let mut jobs = vec![];
+    let mut owner = vec![];
+    let mut progs = vec![];
+    for (vi, v) in vectors.iter().enumerate() {
+        let body = cse_tree_to_expr(&v["tree"]);
+        let p = Program { args: pat.clone(),
+            helpers: vec![Helper::Defun { name: "fun1".into(), pat: pat.clone(), body, inline: false }],
+            body: Expr::Call("fun1".into(), vec![Expr::Var("G1".into()), Expr::Var("G2".into()), Expr::Var("X".into())], None) };
+        let envs: Vec<V> = v["rows"].as_array().unwrap().iter().map(|r| {
+            let g = |b: &Value| if b.as_bool().unwrap() { V::int(1) } else { V::nil() };
+            V::list(&[g(&r["g1"]), g(&r["g2"]), if r["efail"].as_bool().unwrap() { bad_x.clone() } else { good_x.clone() }])
+        }).collect();
+        for (b, j) in build_jobs(&p, &envs, &builds) {
+            jobs.push(j);
+            owner.push((vi, b));
+        }
+        progs.push((p, envs));
+    }
+    let results = run_jobs(jobs, &PoolCfg { batch: 8, timeout: Duration::from_secs(15), ..PoolCfg::default() });
+    let mut rep = Report::default();
+    for ((vi, b), r) in owner.iter().zip(results.iter()) {
+        let v = &vectors[*vi];
+        let (p, envs) = &progs[*vi];
+        rep.evaluations += 1;
+        if v["saturated"] == true {
+            rep.count("saturated_trees_x_builds");
+        }
+        let obs = outcome_json(r, envs.len());
+        for (i, row) in v["rows"].as_array().unwrap().iter().enumerate() {
+            let want = match row["out"].as_str().unwrap() {
+                "fail" => continue,
+                "E" => e_val.clone(),
+                "K1" => V::int(101),
+                _ => V::int(102),
+            };
+            rep.count("rows_compared");
+            rep.nontrivial(&format!("{}|{}", v["tree"], i));
+            let got = &obs[i];
+            if *got != json!(["ok", want.to_json()]) && got[0] != "slow" {
+                rep.violation(json!({"property": "C02", "kind": "cse-guard-replay", "builds": [b], "env_index": i + 1, "expected": ["ok", want.to_json()],
+                    "observed": {b.as_str(): r.get("runs").cloned().unwrap_or(r.clone())}, "tree": v["tree"], "model_says_hoistable": v["saturated"],
+                    "case": {"source": p.render("*SIGIL*"), "envs": envs.iter().map(|e| e.show()).collect::<Vec<_>>(), "features": format!("{:?}", features(p)),
+                        "ast": p.to_json(), "envs_json": envs.iter().map(|e| e.to_json()).collect::<Vec<_>>()}}));
+                break;
+            }
+        }
+    }
+    rep.traces = vectors.len() as u64;
+    rep.write(outp);
+}
